@@ -93,7 +93,7 @@ MergeOver(base, extra) ==
      seq |-> [k \in (DOMAIN base.seq) \cup (DOMAIN extra.seq) |-> IF k \in DOMAIN extra.seq THEN extra.seq[k] ELSE base.seq[k]]]
 
 Requests ==
-         [t : {"cfg_set"}, k : CKeys, v : Contents, hid : {nextHid}]
+         [t : {"cfg_set"}, k : CKeys, v : Contents]
     \cup [t : {"cfg_del"}, k : CKeys]
     \cup [t : {"ns_set"}, k : NsIds, v : NsNames]
     \cup [t : {"ns_del"}, k : NsIds]
@@ -112,7 +112,11 @@ Init ==
     /\ log = <<>> /\ applied = 0 /\ sm = Empty /\ snaps = <<>> /\ partial = NoState
     /\ capturing = 0 /\ nextHid = 1 /\ ops = 0 /\ hist = <<>>
 
-Apply(r) ==
+\* the leader stamps a config publish with the next history id
+Stamp(r, h) == IF r.t = "cfg_set" THEN [t |-> r.t, k |-> r.k, v |-> r.v, hid |-> h] ELSE r
+
+Apply(r0) ==
+    LET r == Stamp(r0, nextHid) IN
     /\ Len(log) < MaxLog /\ applied = Len(log)
     /\ log' = Append(log, r) /\ applied' = applied + 1
     /\ sm' = ApplyReq(sm, r)
@@ -121,7 +125,9 @@ Apply(r) ==
     /\ Step([op |-> "apply", index |-> applied + 1, req |-> r, sm |-> sm'])
 
 \* follower path: two committed requests are handed over in one batch
-ApplyBatch(r1, r2) ==
+ApplyBatch(q1, q2) ==
+    LET r1 == Stamp(q1, nextHid)
+        r2 == Stamp(q2, nextHid) IN
     /\ Len(log) + 2 <= MaxLog /\ applied = Len(log)
     /\ r2.t # "cfg_set" \/ r1.t # "cfg_set"       \* (one history id per step is enough for the model)
     /\ log' = log \o <<r1, r2>> /\ applied' = applied + 2
@@ -162,13 +168,14 @@ CaptureEnd ==
     /\ UNCHANGED <<log, applied, sm, nextHid>>
     /\ Step([op |-> "compact_late", upto |-> capturing, sm |-> sm])
 
-\* an earlier attempt to write snapshot_<next id> was interrupted; it had captured state `st`
-\* (any earlier served state), optionally one more item
-InterruptSnap(st) ==
+\* an attempt to write snapshot_<next id> is interrupted after the file was written and before the
+\* catalogue was updated: the file keeps the state captured now
+InterruptSnap ==
     /\ partial = NoState /\ applied > 0 /\ capturing = 0
-    /\ partial' = st
+    /\ (IF Len(snaps) = 0 THEN TRUE ELSE snaps[Len(snaps)].end < applied)
+    /\ partial' = sm
     /\ UNCHANGED <<log, applied, sm, snaps, capturing, nextHid>>
-    /\ Step([op |-> "interrupt_snapshot", st |-> st, sm |-> sm])
+    /\ Step([op |-> "interrupt_snapshot", sm |-> sm])
 
 Restart ==
     /\ ops > 0 /\ capturing = 0
@@ -179,14 +186,12 @@ Restart ==
     /\ UNCHANGED <<log, applied, snaps, partial, capturing, nextHid>>
     /\ Step([op |-> "restart", sm |-> sm])      \* the CONTRACT expects the identity
 
-EarlierStates == {hist[i].sm : i \in 1..Len(hist)}
-
 Next ==
     \/ \E r \in Requests : Apply(r)
     \/ \E r1 \in Requests, r2 \in Requests : ApplyBatch(r1, r2)
     \/ Compact
     \/ CaptureBegin \/ CaptureEnd
-    \/ \E st \in EarlierStates : InterruptSnap(st)
+    \/ InterruptSnap
     \/ Restart
 
 Spec == Init /\ [][Next]_vars
